@@ -286,14 +286,17 @@ impl CGen {
             }
             t.adhoc.push(adhoc("withdrawal", fields));
         }
-        if self.r.chance(1, 5) {
-            t.adhoc.push(adhoc(
-                "plutus_witness",
-                vec![
-                    ("version", E::Number(*self.r.pick(&[1i128, 2, 3, 4]))),
-                    ("script", E::Bytes(self.r.bytes(6))),
-                ],
-            ));
+        if self.r.chance(1, 4) {
+            // several witnesses, often of one language version: their order is the template's
+            let k = 1 + self.r.below(4);
+            let same = *self.r.pick(&[1i128, 2, 3]);
+            for _ in 0..k {
+                let v = if self.r.chance(2, 3) { same } else { *self.r.pick(&[1i128, 2, 3, 4]) };
+                t.adhoc.push(adhoc(
+                    "plutus_witness",
+                    vec![("version", E::Number(v)), ("script", E::Bytes(self.r.bytes(6)))],
+                ));
+            }
         }
         if self.r.chance(1, 8) {
             // a valid native script: [0, keyhash]  (sig)
